@@ -54,6 +54,15 @@ class C18(Prop):
                                                                rng.choice([1, 14, 20, 100]), rng.choice(['1', '2', '1/2', '5', '13/4']))
             ow = rng.choice(['0', '1', '100', '333/2', '2000']); oh = rng.choice(['0', '7', '50', '1001/4'])
             out.append(self.make(g, t, (sw, colors, ow, oh, rng.choice(['8', '1', '3', '1/2']))))
+        # class tags inside shapes (with and without a legend) under every switch combination: a switch must not change what is drawn
+        tagged = ['+------+\n|{w} hi|\n+------+', '+----+\n|{a}|\n+----+\n# Legend:\na = {fill:red}', ' .--.\n |{b}|\n \'--\'  {c}', '  ,-.\n ({k})\n  `-\'',
+                  '+---------+\n| +-----+ |\n| |{in} | |\n| +-----+ |\n| {out}   |\n+---------+']
+        for t in tagged:
+            for bd in (0, 1):
+                for st in (0, 1):
+                    for df in (0, 1):
+                        colors = 'ff=%s;fill=%s;bg=%s;sc=%s;fs=%d;sw=%s' % (dotted('Arial'), dotted('red'), dotted('#fff'), dotted('blue'), 14, '2')
+                        out.append(self.make('tagged', t, ((bd, st, df), colors, '100', '50', rng.choice(['8', '1']))))
         return out
     def item_from_json(self, j): return item_from_json(None, j)
     def oracle(self, it):
